@@ -63,16 +63,38 @@ def uniqueKey (s : Option Selector) : String :=
 
 def nsNameSelector (ns : String) : Selector := ⟨[(nsNameLabelKey, ns)], []⟩
 
-/-- `addRepresentativePod`: first-come per key -/
+/-- `(*metav1.LabelSelector).String()` (generated code: matchLabels printed by sorted key, expressions as written) -/
+def goSelString (s : Option Selector) : String :=
+  match s with
+  | none => "nil"
+  | some x =>
+    let ml := (x.matchLabels.mergeSort (fun a b => a.1 ≤ b.1)).map fun kv => kv.1 ++ ": " ++ kv.2 ++ ","
+    let me := x.exprs.map fun r =>
+      "LabelSelectorRequirement{Key:" ++ r.key ++ ",Operator:" ++
+        (match r.op with | .In => "In" | .NotIn => "NotIn" | .Exists => "Exists" | .DoesNotExist => "DoesNotExist") ++
+        ",Values:[" ++ " ".intercalate r.vals ++ "],},"
+    "&LabelSelector{MatchLabels:map[string]string{" ++ String.join ml ++ "},MatchExpressions:[]LabelSelectorRequirement{" ++
+      String.join me ++ "},}"
+
+/-- `representativeSpelling`: orders the ways in which the selectors of one representative peer may be written -/
+def spelling (p : Pod) : String :=
+  (if p.ns == "" then "true" else "false") ++ "|" ++ goSelString p.reprNsSel ++ "|" ++ goSelString p.reprPodSel
+
+/-- `addRepresentativePod`: one peer per key; of several spellings of equal selectors the least one is kept, whatever
+the order in which the rules are met -/
 def addRepresentative (reps : List (String × Pod)) (policyNs : String) (rs : RuleSel) : List (String × Pod) :=
   let podNs := if rs.nsSel.isNone then policyNs else ""
   let nsSel : Selector := match rs.nsSel with
     | some s => s
     | none => nsNameSelector podNs
   let key := uniqueKey (some nsSel) ++ "/" ++ uniqueKey rs.podSel
-  if reps.any (·.1 == key) then reps
-  else reps ++ [(key, { ns := podNs, name := representativePodName, labels := [], ports := [], fake := true,
-                        reprPodSel := rs.podSel, reprNsSel := some nsSel })]
+  let newPod : Pod := { ns := podNs, name := representativePodName, labels := [], ports := [], fake := true,
+                        reprPodSel := rs.podSel, reprNsSel := some nsSel }
+  match reps.find? (·.1 == key) with
+  | some (_, old) =>
+    if spelling newPod < spelling old then reps.map fun kp => if kp.1 == key then (key, newPod) else kp
+    else reps
+  | none => reps ++ [(key, newPod)]
 
 /-- `removeRepresentativePeersMatchingLabels` -/
 def removeMatching (reps : List (String × Pod)) (podLabels nsLabels : Labels) : List (String × Pod) :=
